@@ -48,7 +48,7 @@ def _bonds(rng, natom, nbond, types):
         if i == j or (min(i, j), max(i, j)) in seen:
             continue
         seen.add((min(i, j), max(i, j)))
-        bonds.append((min(i, j), max(i, j), int(types[int(rng.integers(len(types)))])))
+        bonds.append((i, j, int(types[int(rng.integers(len(types)))])))  # orientation as drawn: (i, j) need not be sorted
     return np.array(bonds, dtype=int).reshape(-1, 3)
 
 
@@ -62,13 +62,16 @@ def make(fmt, rng, klass="small"):
     from iodata.utils import Cube
 
     natom = {"small": int(rng.integers(1, 9)), "medium": int(rng.choice([9, 10, 99, 100, 101])),
-             "large": int(rng.choice([999, 1000, 1001])), "wide": int(rng.integers(2, 7))}[klass]
+             "large": int(rng.choice([999, 1000, 1001])), "wide": int(rng.integers(2, 7)),
+             "huge": int(rng.choice([9999, 10000, 10001, 12000]))}[klass]
     feats = {"fmt": fmt, "klass": klass, "natom": natom}
     opt = lambda p=0.5: bool(rng.random() < p)  # noqa: E731
     if fmt in ("fchk", "molden", "molekel", "wfn", "wfx"):
         nbmax = 24 if fmt in ("molden", "molekel") else 36
         ghosts = "none" if fmt == "molekel" else None
-        data, f = wo.make(rng, fmt, nbasis_max=nbmax, with_rdms=(fmt == "fchk" and opt()), ghosts=ghosts,
+        # documented domain without allow_changes: segmented shells (SP shells also for FCHK), no occs_aminusb
+        ctr = str(rng.choice(["segmented", "sp"])) if fmt == "fchk" else "segmented"
+        data, f = wo.make(rng, fmt, nbasis_max=nbmax, with_rdms=(fmt == "fchk" and opt()), ghosts=ghosts, contraction=ctr,
                           conv_class="native" if opt(0.5) else None,
                           spin=str(rng.choice(["restricted", "rohf", "unrestricted"])))
         feats.update(f)
@@ -121,7 +124,7 @@ def make(fmt, rng, klass="small"):
                       core_energy=float(np.round(rng.normal(), 8)) if opt(0.7) else None)
         feats.update({"norb": norb, "core_energy": data.core_energy is not None})
         return data, feats
-    mag = {"small": 9.0, "medium": 50.0, "large": 90.0, "wide": 900.0}[klass]
+    mag = {"small": 9.0, "medium": 50.0, "large": 90.0, "wide": 900.0, "huge": 400.0}[klass]
     atnums = rng.integers(1, 87, size=natom)
     kw = {"atnums": atnums}
     if opt(0.8):
@@ -132,6 +135,8 @@ def make(fmt, rng, klass="small"):
         if klass == "wide":
             mag = 9000.0 if opt() else 900.0
         kw["atcoords"] = _coords(rng, natom, min(mag, 9000.0), 3)
+        # the 8.3 columns hold -999.999 .. 9999.999 angstrom
+        kw["atcoords"] = np.clip(np.round(kw["atcoords"] / units.angstrom, 3), -999.0, 9999.0) * units.angstrom
         kw["extra"] = {}
         if opt(0.7):
             kw["atffparams"] = {"attypes": np.array([f"A{i % 1000}"[:4] for i in range(natom)]),
@@ -139,11 +144,14 @@ def make(fmt, rng, klass="small"):
                                 "resnums": (np.arange(natom) // 3 + 1) % 10000}
         if opt():
             kw["extra"]["occupancies"] = np.round(rng.uniform(0, 1, size=natom), 2)
-            kw["extra"]["bfactors"] = np.round(rng.uniform(0, 99, size=natom), 2)
+            kw["extra"]["bfactors"] = np.round(rng.uniform(0, 999, size=natom), 2)
         if opt():
             kw["extra"]["chainids"] = np.array([str(rng.choice(list("ABC"))) for _ in range(natom)])
-        if opt() and natom > 1:
+        if (opt() or klass == "huge") and natom > 1:
             kw["bonds"] = _bonds(rng, natom, int(rng.integers(1, min(2 * natom, 40))), [bond_un()])
+            if klass == "huge":
+                hi = np.array([[natom - 1 - k, natom - 3 - 2 * k, bond_un()] for k in range(6)])
+                kw["bonds"] = np.concatenate([kw["bonds"], np.sort(hi[:, :2], axis=1).tolist() and np.column_stack([np.sort(hi[:, :2], axis=1), hi[:, 2]])])
     elif fmt == "mol2":
         kw["atcoords"] = _coords(rng, natom, mag, 4)
         if opt(0.7):
